@@ -132,6 +132,7 @@ type Eng struct {
 	valueFieldTypes map[string]bool
 	wfFrontier string
 	rootFrame *Frame
+	entryState *State
 	atRootExit bool
 	siteHits map[*SiteSpec]int
 	modelIDs map[int]bool
@@ -219,6 +220,13 @@ func (e *Eng) get(st *State, name, sortName string) string {
 	if strings.HasPrefix(name, "@post.") {
 		// path on which the monitor lock was never released: the post state is the current one
 		return e.get(st, strings.TrimPrefix(name, "@post."), sortName)
+	}
+	if strings.HasPrefix(name, "@old.") {
+		// path on which the monitor lock was never taken: old() is the state at function entry
+		if e.entryState != nil {
+			return e.get(e.entryState, strings.TrimPrefix(name, "@old."), sortName)
+		}
+		return e.get(st, strings.TrimPrefix(name, "@old."), sortName)
 	}
 	return e.regInit(name, sortName)
 }
@@ -755,6 +763,7 @@ type Frame struct {
 	nonnil map[string][]*ssa.BasicBlock
 	inheritedNonNil map[string]bool
 	locals map[string]ssa.Value
+	curBlock *ssa.BasicBlock
 	freeVals map[string]*Val
 	autoBounds map[*ssa.BasicBlock]func(*State, map[*ssa.Phi]*Val, *ssa.BasicBlock, string)
 }
